@@ -171,7 +171,11 @@ harness!(vec_truncate_clear_resize, {
         s.clear();
         assert!(s.len() == 0 && s.is_empty() && drops_total() == m.n);
     } else {
-        let r = s.resize_with(k, || Tracked { id: 7, v: 9 });
+        // the constructor callback is COUNTED: exactly one call per new element (a surplus element would sit beyond len and
+        // never be dropped -- invisible to the drop counters)
+        let mut created = 0usize;
+        let r = s.resize_with(k, || { created += 1; Tracked { id: 7, v: 9 } });
+        assert!(created == if k <= CAP && k > m.n { k - m.n } else { 0 });
         if k > CAP { assert!(r == Err(VectorModificationError::InsertWouldExceedCapacity) && same(&s, &m)); }
         else if k <= m.n { let mut e = m; e.n = k; assert!(r.is_ok() && same(&s, &e) && drops_total() == m.n - k); }
         else {
